@@ -96,7 +96,11 @@ def run(ck):
             if fld not in msg_fields:
                 continue
             for how, ev, chain in w[fld]:
-                ok = how in IDEMPOTENT_HOW
+                # re-executing a keyed store does not accumulate (map/set insert, emplace, operator[] ...); appending to a sequence does
+                ok = how in IDEMPOTENT_HOW or (how.startswith("call:") and ev["k"] == "call" and lib.is_assoc_call(ev) and
+                                               how[5:] in ("emplace", "try_emplace", "emplace_hint", "insert_or_assign", "operator[]", "insert"))
+                if how == "call:insert" and ev["k"] == "call" and not lib.is_assoc_call(ev) and strip_tmpl(ev.get("callee") or "").startswith("std::"):
+                    ok = False      # insert into a sequence container accumulates
                 ck.ob("C01-R2", "%s: %s %s" % (short, fld.replace(H, ""), how), ok, ev.loc, ev.func,
                       "idempotent under re-parse" if ok else "%s on message state is repeated after every roll-back (accumulates across re-parses)" % how, path=chain)
 
